@@ -12,6 +12,7 @@ import time
 from typing import Any, Dict, List, Optional, Set, Tuple
 
 from mc import runner
+from mc.abstract import Dimension as abstract_Dimension
 from mc.gen.atoms import LIT1
 
 PROP = "C13"
@@ -266,7 +267,7 @@ def dangerous_member(env: Dict[Any, Any], m: int, det: str) -> bool:  # pylint: 
     return True
 
 
-class MemberDim:
+class MemberDim(abstract_Dimension):
     """O2 dimension: one field of the transaction a contract reads as own / Gtxn[i] / Gtxn[GI+k]."""
 
     def __init__(self, field: str, how: Tuple[str, Optional[int]], values: List[Any]):
